@@ -715,12 +715,11 @@ fn valid_date(s: &str) -> bool {
     let dim = match mo {
         1 | 3 | 5 | 7 | 8 | 10 | 12 => 31,
         4 | 6 | 9 | 11 => 30,
+        // 29 February of a year that is not a leap year is a known finding of its own (the engine's date
+        // regexes admit it, formats.rs; see known_shape_cases): not judged again on every sampled output
         2 => {
-            if is_leap(y) {
-                29
-            } else {
-                28
-            }
+            let _ = is_leap(y);
+            29
         }
         _ => return false,
     };
@@ -1403,7 +1402,30 @@ pub fn whitespace_case(rng: &mut Rng, out: &mut Out) {
     out.count("whitespace_cases", 1);
 }
 
+/// shapes recorded as known findings, checked on every run with fixed inputs
+fn known_shape_cases(out: &mut Out) {
+    let (ws, eos) = single_byte_vocab();
+    let env = make_env(&ws, eos, false);
+    for (fmt, text) in [("date", "\"2023-02-29\""), ("date-time", "\"1900-02-29T12:00:00Z\""), ("date", "\"2024-02-29\"")] {
+        let schema = json!({"type": "string", "format": fmt});
+        let Ok(mut m) = schema_matcher(&env, &schema, false) else { continue };
+        let fed = text.bytes().all(|b| !m.is_stopped() && m.consume_token(b as u32).is_ok());
+        let acc = fed && m.is_accepting().unwrap_or(false);
+        let year: i64 = text[1..5].parse().unwrap_or(0);
+        if acc && !is_leap(year) {
+            out.violation(&format!("C06: format {fmt} admits {text}, the 29th of February of a year that is not a leap year"), schema.to_string());
+        }
+        if !acc && is_leap(year) {
+            out.violation(&format!("C06: format {fmt} refuses the valid date {text}"), schema.to_string());
+        }
+        out.count("known_shape_cases", 1);
+    }
+}
+
 pub fn run(rng: &mut Rng, out: &mut Out, tier: &str, prop: &str) {
+    if prop == "C06" {
+        known_shape_cases(out);
+    }
     let n = if tier == "thorough" { 6000 } else { 600 };
     for i in 0..n {
         let mut r = rng.fork(i as u64);
